@@ -19,8 +19,8 @@ LEVEL_TEXT = ('Decides clauses C19-a/b/c: from the request-time closure of the s
               'he file bytes through with_payload (Content-Type from the extension table, Content-Length from the same bytes); the extension table maps to well-forme'
               'd, distinct-keyed media types. C19-d: the buffer StaticFileHandler::new stores is handed out mutably only to the read that fills it: nothing modifies '
               'the snapshot between the read and the store. C19-e: in the directory walk of Dir::new every entry found to be a regular file is recorded and every dir'
-              'ectory is descended into before the next entry is taken (no skip under any other condition). Decides these clauses, not the exact served set for all d'
-              'irectory trees.')
+              'ectory is descended into before the next entry is taken (no skip under any other condition). In Dir::apply every recorded file reaches a register call'
+              ' before the next one is taken. Decides these clauses, not the exact served set for all directory trees.')
 
 FS_API = r"^std::(fs|io|path|env|os)::|^<std::(fs|io|path)::|^std::sys::"
 
@@ -400,3 +400,23 @@ def c19e(ck, prog):
         ck.ob(R, "walk:every-%s" % what, ok, f.loc(t.sp), "" if ok else "in Dir::new an entry found to be a %s can be passed over: the walk goes on to the next entry on a path that neither %s nor fails -- files under the directory would answer 404" % (what, "records it" if what == "file" else "queues its entries"),
               how="from the `%s` edge every way back to the loop head passes %s" % (test, "files.push(..)" if what == "file" else "entries.append(fetch_entries(..))"))
     ck.floor(R, "walk decisions", n, 2)
+    # Dir::apply: every recorded file is registered before the next one is taken (no `continue` on a name test)
+    aps = [g for g in prog.fns.values() if re.search(r"RoutingItem for ohkami::ohkami::routing::Dir>::apply$", g.key)]
+    if len(aps) != 1:
+        raise AnchorLost("Dir::apply not found (%d)" % len(aps))
+    a = aps[0]
+    aloops = natural_loops(a)
+    regs = [c for c in a.calls() if re.search(r"ops::function::(FnMut::call_mut|FnOnce::call_once|Fn::call)$", c.decl or "") and any(c.bb in b for b in aloops.values())]
+    nxs = [c for c in a.calls() if c.name == "next" and any(c.bb in b for b in aloops.values()) and re.search(r"arg1\.files\b", decision.describe_deep(a, c.args[0], 5))]
+    okr = False
+    for nx in nxs:
+        sws = sorted(sb for sb in a.live_blocks() if a.blocks[sb]["t"]["k"] == "switch" and a.dominates(nx.bb, sb) and re.search(r"^discr\(next\(", decision.describe_deep(a, a.blocks[sb]["t"]["discr"], 2)))
+        sws = [sb for sb in sws if not any(a.dominates(o, sb) and o != sb for o in sws)]      # the switch on this iterator's answer
+        for sb in sws[:1]:
+            for tb, lab in a.succ(sb):
+                mine = [c for c in regs if c.bb in a.reachable_from(tb)]
+                if not mine or nx.bb not in a.reachable_from(tb):
+                    continue      # the None side
+                okr = any(nx.bb not in a.reachable_from(tb, avoid=(c.bb,)) for c in mine)
+    ck.ob(R, "apply:every-file-registered", okr, a.loc(None), "" if okr else "in Dir::apply a recorded file can be passed over: the loop takes the next file on a path that registers no route for this one -- a regular file under the directory would answer 404",
+          how="from the `Some(file)` edge the iterator is not advanced again without a register call (%d register call sites)" % len(regs))
